@@ -157,7 +157,7 @@ pub fn run(args: &Args) -> i32 {
                 ds: match Dataset::write(reader_of(vec![RecordBatch::new_empty(spec.schema())]), &unique_uri("c12"), Some(WriteParams { data_storage_version: Some(version), enable_stable_row_ids: rng.chance(1, 4), ..Default::default() })).await {
                     Ok(d) => d,
                     Err(e) => {
-                        report.harness_error(&format!("case {case}: create: {e}"));
+                        op_failed(&report, &format!("case {case}: create: {e}"));
                         return;
                     }
                 },
@@ -177,7 +177,7 @@ pub fn run(args: &Args) -> i32 {
                 let b = t.batch_of(&rows, &all_cols);
                 let p = WriteParams { mode: WriteMode::Append, data_storage_version: Some(version), ..Default::default() };
                 if let Err(e) = guarded_op("append", t.ds.append(reader_of(vec![b]), Some(p))).await {
-                    report.harness_error(&format!("case {case}: initial append: {e}"));
+                    op_failed(&report, &format!("case {case}: initial append: {e}"));
                     return;
                 }
                 for r in rows {
@@ -191,7 +191,7 @@ pub fn run(args: &Args) -> i32 {
             if let Some(ix) = ix {
                 let (it, ip) = ix.params();
                 if let Err(e) = guarded(t.ds.create_index(&[on_name.as_str()], it, Some("key_idx".into()), &ip, true)).await {
-                    report.harness_error(&format!("case {case}: create_index: {e:?}"));
+                    op_failed(&report, &format!("case {case}: create_index: {e:?}"));
                     return;
                 }
             }
@@ -232,7 +232,7 @@ pub fn run(args: &Args) -> i32 {
                         let df = match DfRef::new(t.m.to_batch()) {
                             Ok(d) => d,
                             Err(e) => {
-                                report.harness_error(&format!("case {case}: datafusion reference: {e}"));
+                                op_failed(&report, &format!("case {case}: datafusion reference: {e}"));
                                 return;
                             }
                         };
@@ -245,7 +245,7 @@ pub fn run(args: &Args) -> i32 {
                         let victims = match reference(&pred, &sql, &t.m, &df).await {
                             RefOutcome::Ok { ids, .. } => ids,
                             RefOutcome::HarnessError(e) => {
-                                report.harness_error(&format!("case {case} op{opi}: {e}"));
+                                op_failed(&report, &format!("case {case} op{opi}: {e}"));
                                 continue;
                             }
                         };
@@ -276,7 +276,7 @@ pub fn run(args: &Args) -> i32 {
                         let df = match DfRef::new(t.m.to_batch()) {
                             Ok(d) => d,
                             Err(e) => {
-                                report.harness_error(&format!("case {case}: datafusion reference: {e}"));
+                                op_failed(&report, &format!("case {case}: datafusion reference: {e}"));
                                 return;
                             }
                         };
@@ -342,7 +342,7 @@ pub fn run(args: &Args) -> i32 {
                         let hit = match reference(&pred, &sql, &t.m, &df).await {
                             RefOutcome::Ok { ids, .. } => ids,
                             RefOutcome::HarnessError(e) => {
-                                report.harness_error(&format!("case {case} op{opi}: {e}"));
+                                op_failed(&report, &format!("case {case} op{opi}: {e}"));
                                 continue;
                             }
                         };
@@ -415,7 +415,7 @@ pub fn run(args: &Args) -> i32 {
                                 }
                             }
                             Err(e) => {
-                                report.harness_error(&format!("case {case}: append: {e}"));
+                                op_failed(&report, &format!("case {case}: append: {e}"));
                                 return;
                             }
                         }
@@ -606,7 +606,7 @@ pub fn run(args: &Args) -> i32 {
                         let mut builder = match MergeInsertBuilder::try_new(Arc::new(t.ds.clone()), vec![on_name.clone()]) {
                             Ok(b) => b,
                             Err(e) => {
-                                report.harness_error(&format!("case {case}: merge builder: {e}"));
+                                op_failed(&report, &format!("case {case}: merge builder: {e}"));
                                 return;
                             }
                         };
